@@ -1,6 +1,8 @@
 import ChfVerif.Lemmas.Convert
 import ChfVerif.Lemmas.ChargingSids
 import ChfVerif.Lemmas.ChargingRecords
+import ChfVerif.Lemmas.ChargingSessions
+import ChfVerif.Model.RecordBer
 /-
   C02 — reported usage is recorded exactly once, in the right session's CDR; the opening timestamp
   is the TS 32.298 BCD form of the creation instant in every time zone.
@@ -195,9 +197,81 @@ theorem C02_exactly_once (guard : SplitGuard) (supi : Bytes) (ops : List Op)
   have h := (usage_run guard supi ops { accts := accts, tariffs := tariffs } (allIdx_init accts tariffs)).1
   simpa [usageOf, findUe] using h
 
+/-- C02 (per session, in report order — the full statement): whatever the history, the usage entries held by the records
+    that carry session reference `sid` of subscriber `supi` — read in record order and, inside a record, in list order —
+    are exactly, and in exactly this order, the usage entries of the accepted create that returned `sid` followed by those
+    of every accepted update and release addressed to `sid`, in the order the requests were made: nothing is lost,
+    duplicated, reordered, or recorded under another session's reference or another subscriber, across any number of
+    record splits decided by any size guard. (`sid ≠ ""`: one-time events open no session.) -/
+theorem C02_session_in_order (guard : SplitGuard) (supi sid : Bytes) (hsid : sid ≠ []) (ops : List Op)
+    (accts : Abmf.Store) (tariffs : List Rating.Tariff) :
+    sessUsage (run guard { accts := accts, tariffs := tariffs } ops) supi sid =
+      contribSessRun guard supi sid { accts := accts, tariffs := tariffs } ops := by
+  have h := (sess_run guard supi sid hsid ops _ (sessInv_init accts tariffs)).1
+  simpa [sessUsage, findUe] using h
+
+/-- the bookkeeping invariant behind it, for every reachable state: the session map has no duplicate keys, every live
+    reference designates the LAST record carrying it, every reference found in a record was issued with a smaller
+    sequence number than the counter -/
+theorem C02_session_invariant (guard : SplitGuard) (ops : List Op) (accts : Abmf.Store) (tariffs : List Rating.Tariff) :
+    SessInv (run guard { accts := accts, tariffs := tariffs } ops) :=
+  (sess_run guard [] [0] (by decide) ops _ (sessInv_init accts tariffs)).2
+
+/-- non-vacuity: two interleaved sessions of one subscriber, a new record started at EVERY update (guard always true),
+    a rejected update in between: each session's contribution is its own reports, in order -/
+example :
+    let supiX : Bytes := [105, 109, 115, 105, 45, 49]
+    let u : Int → Usage := fun n => { rg := 1, req := none, upf := [117], cs := [⟨2, n, 0, n, 0, n⟩] }
+    let rq : Bytes → List Usage → Req := fun nf us =>
+      { supi := supiX, nf := some nf, cid := 1, seq := 0, uri := false, one := false, trigs := [], usages := us }
+    let a := sessionId supiX [97] 0
+    let b := sessionId supiX [98] 1
+    let ops : List Op := [.create (rq [97] [u 1]), .create (rq [98] []), .update a (rq [97] [u 2]), .update b (rq [98] [u 3]),
+      .update [1, 2] (rq [97] [u 9]), .release a (rq [97] [u 4, u 5])]
+    contribSessRun (fun _ _ => true) supiX a {} ops = toRecUsage [u 1, u 2, u 4, u 5] ∧
+    contribSessRun (fun _ _ => true) supiX b {} ops = toRecUsage [u 3] := by decide
+
 /-- … and every session reference keeps designating an existing record -/
 theorem C02_references_valid (guard : SplitGuard) (ops : List Op) (accts : Abmf.Store) (tariffs : List Rating.Tariff) :
     AllIdxOK (run guard { accts := accts, tariffs := tariffs } ops) :=
   (usage_run guard [] ops { accts := accts, tariffs := tariffs } (allIdx_init accts tariffs)).2
+
+end Chf.Props.C02
+
+namespace Chf.Props.C02
+open Chf Chf.RecordBer
+
+/-- a decimal digit character -/
+def isDigit (c : Nat) : Prop := 48 ≤ c ∧ c ≤ 57
+
+/-- C02 (consumer identification, PLMN identifier): for an MCC of three digits and an MNC of two digits the record
+    holds the TS 23.003 / TS 32.298 PLMN-Id octets: MCC digit 2 | MCC digit 1, filler F | MCC digit 3, MNC digit 2 | MNC digit 1 -/
+theorem C02_plmn2 (a b c d e : Nat) (ha : isDigit a) (hb : isDigit b) (hc : isDigit c) (hd : isDigit d) (he : isDigit e) :
+    plmnIdToCdr [a, b, c] [d, e] = [(b - 48) * 16 + (a - 48), 15 * 16 + (c - 48), (e - 48) * 16 + (d - 48)] := by
+  unfold isDigit at *
+  simp only [plmnIdToCdr, hexPair, hexNibble]
+  simp [ha, hb, hc, hd, he]
+
+/-- … and for an MNC of three digits: MCC digit 2 | MCC digit 1, MNC digit 1 | MCC digit 3, MNC digit 3 | MNC digit 2 -/
+theorem C02_plmn3 (a b c d e f : Nat) (ha : isDigit a) (hb : isDigit b) (hc : isDigit c) (hd : isDigit d) (he : isDigit e)
+    (hf : isDigit f) :
+    plmnIdToCdr [a, b, c] [d, e, f] = [(b - 48) * 16 + (a - 48), (d - 48) * 16 + (c - 48), (f - 48) * 16 + (e - 48)] := by
+  unfold isDigit at *
+  simp only [plmnIdToCdr, hexPair, hexNibble]
+  simp [ha, hb, hc, hd, he, hf]
+
+/-- every node functionality OpenCDR knows is recorded with its TS 32.298 value, any other name as 0 -/
+theorem C02_functionality :
+    functionalityCode (asciiBytes "SMF") = 1 ∧ functionalityCode (asciiBytes "AMF") = 2 ∧ functionalityCode (asciiBytes "SMSF") = 3 ∧
+    functionalityCode (asciiBytes "SGW") = 4 ∧ functionalityCode (asciiBytes "I_SMF") = 5 ∧ functionalityCode (asciiBytes "ePDG") = 6 ∧
+    functionalityCode (asciiBytes "CEF") = 7 ∧ functionalityCode (asciiBytes "NEF") = 8 ∧ functionalityCode (asciiBytes "PGW_C_SMF") = 9 ∧
+    functionalityCode (asciiBytes "MnS_Producer") = 10 := by decide
+
+/-- the consumer identification reaches the record unchanged: what OpenCDR puts into the record environment is the
+    request's own strings (absent exactly when empty) -/
+theorem C02_consumer_identification (nfId ot : Bytes) (c : Consumer) :
+    (openEnv nfId ot c).v4 = nonEmpty c.v4 ∧ (openEnv nfId ot c).v6 = nonEmpty c.v6 ∧ (openEnv nfId ot c).fqdn = nonEmpty c.fqdn ∧
+    (openEnv nfId ot c).svcSpec = nonEmpty c.svcSpec ∧ (openEnv nfId ot c).functionality = functionalityCode c.functionality :=
+  ⟨rfl, rfl, rfl, rfl, rfl⟩
 
 end Chf.Props.C02
